@@ -5,7 +5,7 @@
 cd /verif
 export GOFLAGS=-mod=mod GOPROXY=off GOSUMDB=off GOTOOLCHAIN=local
 (cd gosym && go build -o /verif/bin/verifcheck ./cmd/verifcheck) || exit 2
-n=$(grep -c '^	// [0-9]*:' harness/dev/sql/zz_verif_stdbattery.go harness/dev/sql/zz_verif_stdbattery2.go | awk -F: '{s+=$2} END {print s}')
+n=$(cat harness/dev/sql/zz_verif_stdbattery.go harness/dev/sql/zz_verif_stdbattery2.go | grep -c '^[[:space:]]*// [0-9][0-9]*:')
 bad=0
 cd /tmp
 for i in $(seq 0 $((n-1))); do
